@@ -82,7 +82,9 @@ def binVal (c : Char) : Option Nat := if c = '0' then some 0 else if c = '1' the
 /-! ### tokens -/
 
 inductive Tok
-  | num (q : Rat) | name (s : String) | star | dstar | slash | lpar | rpar | minus | plus
+  /-- a NUMBER literal `m × 10^e`; its value is computed only when the code is evaluated
+      (a syntax error elsewhere in the string is reported before `Rational('1e999999999')` is tried) -/
+  | num (m : Nat) (e : Int) | name (s : String) | star | dstar | slash | lpar | rpar | minus | plus
 deriving DecidableEq, Repr, Inhabited
 
 /-- Python's `digitpart`: `digit (["_"] digit)*`, the first character already known to be a
@@ -144,31 +146,34 @@ def scanExponent (cs : List Char) : Option (Int × List Char) :=
 /-- value of `mantissa × 10^exp` as `Rational('…')` computes it; exponents beyond 2000 are
     outside the exact model, beyond 10⁸ they do not finish in practical time
     (`fractions.Fraction` computes `10**exp` whatever the mantissa is) -/
-def mkDecimal (intDs fracDs : List Nat) (exp : Int) : Except PErr Rat :=
-  if exp.natAbs ≥ 10 ^ 8 then .error .hang
-  else if exp.natAbs > 2000 then .error .unmodelled
+def numValue (m : Nat) (e : Int) : Except PErr Rat :=
+  if e.natAbs ≥ 10 ^ 8 then .error .hang
+  else if e.natAbs > 2000 then .error .unmodelled
   else
-    let m : Nat := digitsVal 10 (intDs ++ fracDs)
-    let e : Int := exp - fracDs.length
     let q : Rat :=
       if e ≥ 0 then (((m * 10 ^ e.toNat : Nat) : Int) : Rat)
       else (((m : Nat) : Int) : Rat) / (((10 ^ e.natAbs : Nat) : Int) : Rat)
     guardRat q
 
+/-- the literal `intDs.fracDs e exp` as mantissa and power of ten (the size tests of `numValue`
+    then see the written exponent shifted by the number of fraction digits — a handful) -/
+def mkDecimal (intDs fracDs : List Nat) (exp : Int) : Nat × Int :=
+  (digitsVal 10 (intDs ++ fracDs), exp - fracDs.length)
+
 /-- one NUMBER token (the input starts with a digit, or with `.` followed by a digit).
-    `.error .unitParseError` for what Python's tokenizer rejects (`007`, `1__0`, `0x`, `1_`). -/
-def lexNumber (cs : List Char) : Except PErr (Rat × List Char) :=
+    `none` for what Python's tokenizer rejects (`007`, `1__0`, `0x`, `1_`). -/
+def lexNumber (cs : List Char) : Option ((Nat × Int) × List Char) :=
   let fuel := cs.length + 1
-  let radix (dv : Char → Option Nat) (base : Nat) (rest : List Char) : Except PErr (Rat × List Char) :=
+  let radix (dv : Char → Option Nat) (base : Nat) (rest : List Char) : Option ((Nat × Int) × List Char) :=
     let rest := match rest with | '_' :: r => r | r => r
     match rest with
     | d :: _ =>
       if (dv d).isSome then
         match scanDigs dv fuel rest [] with
-        | some (ds, r) => (guardRat ((digitsVal base ds : Nat) : Int)).map fun q => (q, r)
-        | none => .error .unitParseError
-      else .error .unitParseError
-    | [] => .error .unitParseError
+        | some (ds, r) => some ((digitsVal base ds, 0), r)
+        | none => none
+      else none
+    | [] => none
   match cs with
   | '0' :: 'x' :: r => radix hexVal 16 r
   | '0' :: 'X' :: r => radix hexVal 16 r
@@ -183,7 +188,7 @@ def lexNumber (cs : List Char) : Except PErr (Rat × List Char) :=
       | c :: _ => if isDigit c then scanDigs decVal fuel cs [] else some ([], cs)
       | [] => some ([], cs)
     match ip with
-    | none => .error .unitParseError
+    | none => none
     | some (intDs, r1) =>
       -- fraction
       let fp : Option (Bool × List Nat × List Char) :=
@@ -195,18 +200,18 @@ def lexNumber (cs : List Char) : Except PErr (Rat × List Char) :=
           | [] => some (true, [], r2)
         | _ => some (false, [], r1)
       match fp with
-      | none => .error .unitParseError
+      | none => none
       | some (hasDot, fracDs, r3) =>
-        if intDs.isEmpty && fracDs.isEmpty then .error .unitParseError else
+        if intDs.isEmpty && fracDs.isEmpty then none else
         match scanExponent r3 with
-        | some (e, r4) => (mkDecimal intDs fracDs e).map fun q => (q, r4)
+        | some (e, r4) => some (mkDecimal intDs fracDs e, r4)
         | none =>
-          if hasDot then (mkDecimal intDs fracDs 0).map fun q => (q, r3)
+          if hasDot then some (mkDecimal intDs fracDs 0, r3)
           else
             -- a plain decimal integer: no leading zeros unless it is all zeros
             let v := digitsVal 10 intDs
-            if intDs.head? == some 0 && v ≠ 0 then .error .unitParseError
-            else (guardRat ((v : Nat) : Int)).map fun q => (q, r3)
+            if intDs.head? == some 0 && v ≠ 0 then none
+            else some ((v, 0), r3)
 
 def takeName : List Char → List Char → List Char × List Char
   | [], acc => (acc.reverse, [])
@@ -219,7 +224,8 @@ def lex : Nat → Nat → List Char → Except PErr (List Tok)
   | _ + 1, depth, [] => if depth = 0 then .ok [] else .error .unitParseError
   | fuel + 1, depth, c :: cs =>
     if c = ' ' || c = '\t' || c.toNat = 12 then lex fuel depth cs
-    else if c = '\n' || c = '\r' then
+    else if c = '\r' then .error .unmodelled      -- `tokenize` glues a lone CR to the next token: not modelled
+    else if c = '\n' then
       if depth = 0 then .error .unitParseError else lex fuel depth cs
     else if c = '(' then (lex fuel (depth + 1) cs).map (Tok.lpar :: ·)
     else if c = ')' then
@@ -233,11 +239,11 @@ def lex : Nat → Nat → List Char → Except PErr (List Tok)
     else if c = '+' then (lex fuel depth cs).map (Tok.plus :: ·)
     else if isDigit c || (c = '.' && (match cs with | d :: _ => isDigit d | [] => false)) then
       match lexNumber (c :: cs) with
-      | .error e => .error e
-      | .ok (q, rest) =>
+      | none => .error .unitParseError
+      | some ((m, e), rest) =>
         -- `2m`, `1j`, `1_`: a NAME character directly after a number is never accepted
         if (match rest with | d :: _ => isIdCont d | [] => false) then .error .unitParseError
-        else (lex fuel depth rest).map (Tok.num q :: ·)
+        else (lex fuel depth rest).map (Tok.num m e :: ·)
     else if isIdStart c then
       let (nm, rest) := takeName cs [c]
       (lex fuel depth rest).map (Tok.name (String.ofList nm) :: ·)
@@ -276,7 +282,7 @@ def tokenize (cs : List Char) : Except PErr (List Tok) :=
 -/
 
 inductive PExpr
-  | num (q : Rat) | name (s : String)
+  | num (m : Nat) (e : Int) | name (s : String)
   | neg (e : PExpr) | pos (e : PExpr)
   | mul (a b : PExpr) | div (a b : PExpr) | pow (a b : PExpr)
   | call (f arg : PExpr)
@@ -321,7 +327,7 @@ mutual
     | 0, _ => none
     | fuel + 1, ts =>
       match ts with
-      | .num q :: r => pTrailers fuel (.num q) r
+      | .num m e :: r => pTrailers fuel (.num m e) r
       | .name s :: r => pTrailers fuel (.name s) r
       | .lpar :: r =>
         match pTerm fuel r with
@@ -512,7 +518,7 @@ def vName (s : String) : Val :=
   else .mono ⟨1, [(canonName s, 1)]⟩
 
 def evalP : PExpr → Except PErr Val
-  | .num q => .ok (.mono ⟨q, []⟩)
+  | .num m e => do let q ← numValue m e; .ok (.mono ⟨q, []⟩)
   | .name s => .ok (vName s)
   | .neg e => do let v ← evalP e; vNeg v
   | .pos e => do let v ← evalP e; vPos v
